@@ -31,6 +31,9 @@ type Plan struct {
 	// checker; they are judged by exactly-once, no invention, per-producer order
 	// and the quiescent length.
 	Stall int `json:"stall,omitempty"`
+	// Prefill: that many tasks are enqueued before the scripted tasks start (a
+	// non-empty queue under several concurrent consumers: head contention).
+	Prefill int `json:"prefill,omitempty"`
 }
 
 func Generate(seed uint64, prop, tier string) *Plan {
@@ -50,6 +53,21 @@ func Generate(seed uint64, prop, tier string) *Plan {
 			churn = append(churn, "enq", "deq")
 		}
 		p.Tasks = append(p.Tasks, churn)
+		return p
+	}
+	if r.Chance(1, 4) {
+		// consumers racing for the head of a queue that is not empty
+		p.Prefill = r.Range(3, 8)
+		for i, nt := 0, r.Range(2, 4); i < nt; i++ {
+			var ops []string
+			for j := r.Range(1, 4); j > 0; j-- {
+				ops = append(ops, "deq")
+			}
+			if r.Chance(1, 4) {
+				ops = append(ops, []string{"enq", "len", "empty"}[r.Intn(3)])
+			}
+			p.Tasks = append(p.Tasks, ops)
+		}
 		return p
 	}
 	nt := r.Range(2, 4)
@@ -206,6 +224,18 @@ func Execute(t *testing.T, p *Plan, prop string) (out runner.Outcome) {
 			var deqOrder []int // ids in the order they came out (meaningful with one consumer at a time)
 			s.OnPanic = func(task string, v any, stack []byte) { fail("panic", "task %s panicked: %v", task, v) }
 			s.OnQuiescent = func(int) int { return vsched.QStop }
+			for i := 0; i < p.Prefill; i++ {
+				// sequential set-up, recorded as completed operations of a client of its own
+				nextID++
+				enqueued[nextID] = 99
+				tk := queue.GetTask()
+				tk.Param = nextID
+				q.Enqueue(tk)
+				clock++
+				call := clock
+				clock++
+				ops = append(ops, porcupine.Operation{ClientId: 99, Input: qin{"enq", nextID}, Call: call, Output: qout{}, Return: clock})
+			}
 			for ti, script := range p.Tasks {
 				ti, script := ti, script
 				s.Go(fmt.Sprintf("t%d", ti), func() {
